@@ -132,6 +132,9 @@ def run_case(case, trace_lines=True):
             # two single-thread prefetch stages stacked: two hand-over threads alive at the same time
             ds = ds.map(pull_fn).prefetch(1, b).map(fn).prefetch(1, max(1, case.get('buffer2', 1)))
         elif kind == 'pf':
+            if case.get('shuffled'):
+                import numpy as np
+                ds = ds.shuffle(True, rng=np.random.RandomState(case['shuffled']))
             ds = ds.map(pull_fn).map(fn)
             catch = case.get('catch', False)
             if catch is False:
@@ -283,6 +286,12 @@ def judge_values(tr, check_len=True):
         if len(want) >= k:
             want, fail_pos, ename = want[:k], None, None
     got = tr.delivered
+    if c.get('shuffled'):
+        # random order: every failing example is caught (by construction of the case), compare as multisets
+        if tr.exc is not None or sorted(map(repr, got)) != sorted(map(repr, want)):
+            raise Violation(f'delivered-wrong|{c["kind"]}-shuffled', f'{describe(tr)}\ndelivered {got} ({tr.exc!r})\n'
+                                                                     f'expected a permutation of {want}')
+        return
     if got != want[:len(got)] or (len(got) < len(want)) or len(got) > len(want):
         sig = 'delivered-wrong'
         if len(got) < len(want) and got == want[:len(got)]:
@@ -438,6 +447,17 @@ def st_case(draw, profile):
             case['catch'] = draw(st.sampled_from([False, 'VErrA', ['VErrA', 'VErrC'], 'VErrB']))
             if 'dual' in case and case['catch'] is not False:
                 case.pop('dual')
+            if case['catch'] is not False and draw(st.integers(0, 2)) == 0:
+                # a reshuffle below the catching prefetch; only failures the catch set covers, no source failures
+                spec = case['catch']
+                for p in list(fn_fail):
+                    fn_fail[p] = 'VErrA' if spec != 'VErrB' else 'VErrB'
+                case['src_fail'] = {}
+                for p in list(src_fail):
+                    fn_fail[p] = 'VErrA' if spec != 'VErrB' else 'VErrB'
+                case['fn_fail'] = fn_fail
+                case['shuffled'] = draw(st.integers(1, 99))
+                case.pop('with_key', None)
             if case['catch'] is not False:
                 case.pop('with_key', None) if w > 1 else None
     if profile == 'plain' and kind == 'pf' and draw(st.integers(0, 2)) == 0:
